@@ -1290,7 +1290,17 @@ func (s *ObjectStorage) DeleteOldObjectPackAndIndex(h plumbing.Hash, t time.Time
 	// must not be consulted any more.
 	packs, lerr := s.dir.ObjectPacks()
 	if lerr != nil {
-		return errors.Join(derr, lerr)
+		// The listing failed; ask for the one file instead. Leaving the
+		// question open would keep a deleted pack routed to (or not) by
+		// accident, for as long as this Storage lives.
+		f, perr := s.dir.ObjectPack(h)
+		switch {
+		case perr == nil:
+			_ = f.Close()
+			return derr
+		case !errors.Is(perr, os.ErrNotExist) && !errors.Is(perr, dotgit.ErrPackfileNotFound):
+			return errors.Join(derr, lerr, perr)
+		}
 	}
 	for _, p := range packs {
 		if p == h {
